@@ -799,8 +799,9 @@ pub fn spaces(tier: Tier) -> Vec<Space> {
     // (2) spends assembled and signed through the library's own API (standard forms, no separators) must be accepted
     {
         let (ks2, shapes2) = (ks.clone(), shapes.clone());
-        v.push(Space::new("library-assembled", 3 * 2 * 12 * ns * 2, move |case, acc| {
-            let c = coords(case.idx, &[3, 2, 12, ns, 2]);
+        v.push(Space::new("library-assembled", 3 * 2 * 12 * ns * 2 * 2, move |case, acc| {
+            let c = coords(case.idx, &[3, 2, 12, ns, 2, 2]);
+            let with_k = c[5] == 1;
             let form = c[1] as usize;
             let flag = STD_FLAGS[c[2] as usize];
             let (n_in, n_out, idx) = shapes2[c[3] as usize];
@@ -812,31 +813,33 @@ pub fn spaces(tier: Tier) -> Vec<Space> {
             acc.evaluations += 1;
             acc.transitions += 3;
             let famname = ["P2PK", "P2PKH", "2-of-3"][c[0] as usize];
-            let input = json!({"family": famname, "compressed": form == 0, "flag": format!("0x{:02x}", flag), "n_in": n_in, "n_out": n_out, "idx": idx, "value": value});
+            let input = json!({"family": famname, "signed_with": if with_k { "Transaction::sign_with_k" } else { "Transaction::sign" }, "compressed": form == 0, "flag": format!("0x{:02x}", flag), "n_in": n_in, "n_out": n_out, "idx": idx, "value": value});
             let res = guard(|| -> Result<(Vec<u8>, Vec<u8>), String> {
                 let es = |e: bsv::BSVErrors| e.to_string();
                 let mut t = Transaction::from_bytes(&tx.encode()).map_err(es)?;
                 let sighash = SigHash::try_from(flag as u8).map_err(es)?;
                 let privs: Vec<PrivateKey> = KEYS.iter().map(|k| PrivateKey::from_hex(k).unwrap().compress_public_key(form == 0)).collect();
                 let pubs: Vec<PublicKey> = privs.iter().map(|p| p.to_public_key().unwrap()).collect();
+                let nonce = PrivateKey::from_hex(KEYS[3]).map_err(es)?;
+                let mut sign = |t: &mut Transaction, k: &PrivateKey, locking: &Script| if with_k { t.sign_with_k(k, &nonce, sighash, idx, locking, value) } else { t.sign(k, sighash, idx, locking, value) };
                 match c[0] {
                     0 => {
                         let locking = Script::from_asm_string(&format!("{} OP_CHECKSIG", pubs[1].to_hex().map_err(es)?)).map_err(es)?;
-                        let sig = t.sign(&privs[1], sighash, idx, &locking, value).map_err(es)?;
+                        let sig = sign(&mut t, &privs[1], &locking).map_err(es)?;
                         let unlocking = Script::from_asm_string(&sig.to_hex().map_err(es)?).map_err(es)?;
                         Ok((unlocking.to_bytes(), locking.to_bytes()))
                     }
                     1 => {
                         let addr = P2PKHAddress::from_pubkey(&pubs[1]).map_err(es)?;
                         let locking = addr.get_locking_script().map_err(es)?;
-                        let sig = t.sign(&privs[1], sighash, idx, &locking, value).map_err(es)?;
+                        let sig = sign(&mut t, &privs[1], &locking).map_err(es)?;
                         let unlocking = addr.get_unlocking_script(&pubs[1], &sig).map_err(es)?;
                         Ok((unlocking.to_bytes(), locking.to_bytes()))
                     }
                     _ => {
                         let locking = Script::from_asm_string(&format!("OP_2 {} {} {} OP_3 OP_CHECKMULTISIG", pubs[0].to_hex().map_err(es)?, pubs[1].to_hex().map_err(es)?, pubs[2].to_hex().map_err(es)?)).map_err(es)?;
-                        let s0 = t.sign(&privs[0], sighash, idx, &locking, value).map_err(es)?;
-                        let s2 = t.sign(&privs[2], sighash, idx, &locking, value).map_err(es)?;
+                        let s0 = sign(&mut t, &privs[0], &locking).map_err(es)?;
+                        let s2 = sign(&mut t, &privs[2], &locking).map_err(es)?;
                         let unlocking = Script::from_asm_string(&format!("OP_0 {} {}", s0.to_hex().map_err(es)?, s2.to_hex().map_err(es)?)).map_err(es)?;
                         Ok((unlocking.to_bytes(), locking.to_bytes()))
                     }
@@ -980,7 +983,10 @@ fn api_history_case(acc: &mut Acc, case: &Case, fam4: usize, flag: u32, mutation
             acc.traces += 1;
             acc.nontrivial_structural += 1;
             acc.outcome(&[7, lib_ok as u8, (want == Verdict::Accept) as u8]);
-            if lib_ok && want == Verdict::Reject {
+            if mutation == "none" && want == Verdict::Reject {
+                // nothing was changed after signing: a standard spend signed through the library's own API must be valid
+                acc.violate(format!("C15/api-object-history/kind=own-signature-invalid-for-specified-preimage/signer={}", if with_k { "sign_with_k" } else { "sign" }), case.idx, case.json(input), "the library's own signature on the unmutated object does not verify over the preimage its flag byte selects");
+            } else if lib_ok && want == Verdict::Reject {
                 acc.violate(format!("C15/api-object-history/kind=accepts-invalid/mutation={}", mutation), case.idx, case.json(input), "the interpreter accepts the mutated object; the signature does not cover its current contents");
             } else if !lib_ok && want == Verdict::Accept {
                 acc.violate(format!("C15/api-object-history/kind=rejects-valid/mutation={}", mutation), case.idx, case.json(input), "the interpreter rejects although the signature covers the object's current contents");
